@@ -691,7 +691,9 @@ func ParseContractText(path, pkgPath, text string, external bool) (*ContractFile
 			cur.ModAny = false
 		case "transparent":
 			cur.Transparent = true
-			cur.ModAny = false
+			if !cur.HasModifies {
+				cur.ModAny = false
+			}
 		case "trusted":
 			cur.Trusted = true
 		case "noheap":
